@@ -224,6 +224,12 @@ func (g *gen) mapv(depth int) *V {
 				}
 			case 5:
 				e = &V{K: "nilptr", Elem: g.strct(0)}
+			case 6:
+				if g.r.Chance(1, 3) {
+					e = g.tmap(0) // a Taggable map DIRECTLY as a value of an untagged map is swept as an untagged map
+				} else {
+					e = g.mapLeaf()
+				}
 			default:
 				e = g.mapLeaf()
 			}
@@ -279,7 +285,9 @@ func (g *gen) tmap(depth int) *V {
 	for i := 0; i < n; i++ {
 		k := fmt.Sprintf("k%d", i+1)
 		v.Keys = append(v.Keys, k)
-		switch g.r.Intn(8) {
+		switch g.r.Intn(9) {
+		case 8:
+			v.Vals = append(v.Vals, &V{K: "bytes", C: g.can()}) // a []byte under a (possibly tagged) key
 		case 0:
 			v.Vals = append(v.Vals, &V{K: "int", I: 7})
 		case 1:
@@ -314,7 +322,7 @@ func (g *gen) tmap(depth int) *V {
 		// tags name keys holding strings (or ints), or absent keys
 		ok := true
 		for j, kk := range v.Keys {
-			if kk == k && v.Vals[j].K != "str" && v.Vals[j].K != "int" {
+			if kk == k && v.Vals[j].K != "str" && v.Vals[j].K != "int" && v.Vals[j].K != "bytes" {
 				ok = false
 			}
 		}
@@ -322,6 +330,23 @@ func (g *gen) tmap(depth int) *V {
 			continue
 		}
 		v.Tags = append(v.Tags, g.ptag("/"+k))
+	}
+	if nestedKey != "" && g.r.Chance(1, 3) {
+		// a pointer three (or four) levels deep: a further map below the nested one
+		for j, kk := range v.Keys {
+			if kk == nestedKey {
+				inner := g.leafMap(true, 1+g.r.Intn(2))
+				ptr := fmt.Sprintf("/%s/k7/k%d", nestedKey, 1+g.r.Intn(2))
+				if g.r.Chance(1, 4) {
+					inner.Keys = append(inner.Keys, "k3")
+					inner.Vals = append(inner.Vals, g.leafMap(true, 2))
+					ptr = fmt.Sprintf("/%s/k7/k3/k%d", nestedKey, 1+g.r.Intn(3))
+				}
+				v.Vals[j].Keys = append(v.Vals[j].Keys, "k7")
+				v.Vals[j].Vals = append(v.Vals[j].Vals, inner)
+				v.Tags = append(v.Tags, g.ptag(ptr))
+			}
+		}
 	}
 	if nestedKey != "" && g.r.Chance(2, 3) {
 		// nested pointers name keys holding strings (k1 always does) or absent keys
@@ -352,6 +377,17 @@ func (g *gen) hand(depth int) *V {
 		m := g.leafMap(true, g.r.Intn(4))
 		if len(m.Keys) > 0 && g.r.Chance(1, 3) {
 			m.Vals[0] = &V{K: "int", I: 9}
+		}
+		if g.r.Chance(1, 3) {
+			// a struct (by value or behind a pointer) as a value of the map field, holding a Taggable map of its own:
+			// found by the final sweep, its Taggable field is honoured there
+			inner := &V{K: "struct", Fields: []Field{{Name: "F1", Tag: g.tagText(), V: &V{K: "str", C: g.can()}}, {Name: "F2", V: g.tmap(0)}}}
+			if g.r.Bool() {
+				inner = &V{K: "ptr", Elem: inner}
+			}
+			// under a key no tag of the struct names (tags name string values)
+			m.Keys = append(m.Keys, "k9")
+			m.Vals = append(m.Vals, inner)
 		}
 		ms := g.leafMap(false, g.r.Intn(3))
 		v.Fields = []Field{{Name: "Pub", Tag: sp("public"), V: &V{K: "str", C: g.can()}}, {Name: "Sens", Tag: sp("sensitive"), V: &V{K: "str", C: g.can()}},
@@ -406,7 +442,7 @@ func (g *gen) cloneFresh(v *V) *V {
 			f2.V = g.cloneFresh(f.V)
 			c.Fields = append(c.Fields, f2)
 		}
-	case "ptr":
+	case "ptr", "iface":
 		c.Elem = g.cloneFresh(v.Elem)
 	case "slice":
 		c.Elems = nil
